@@ -291,7 +291,7 @@ func checkTokenWiring(w *World, r *Report, ctor *ssa.Function, tokenIdx, profIdx
 		r.Viol("secret.token-auth", "module: call of "+FuncName(ctor), "-", "the router constructor is never called")
 	}
 	// validate table
-	v := w.FuncByName("config", "Config.validate")
+	v := w.FuncByRole("config", "Config.validate", func(f *ssa.Function) bool { return recvIs(f, "Config") && sigHas(f, nil, []string{"error"}) })
 	if v == nil {
 		r.Undecided("secret.validate-table", "config.Config.validate", "-", "validation function not found")
 		return
@@ -379,7 +379,7 @@ func thinWrapperTarget(w *World, fn *ssa.Function) *ssa.Function {
 }
 
 func checkConfigProducer(w *World, r *Report, fn *ssa.Function, depth int) {
-	validate := w.FuncByName("config", "Config.validate")
+	validate := w.FuncByRole("config", "Config.validate", func(f *ssa.Function) bool { return recvIs(f, "Config") && sigHas(f, nil, []string{"error"}) })
 	res := w.EnumPaths(fn, EnumOpts{})
 	r.Count("paths", len(res.Paths))
 	if res.Truncated {
